@@ -66,16 +66,11 @@ class Config(CIBaseModel):
 
     @model_validator(mode='after')
     def normalize_search_paths(self):
-        """Resolve search paths and initialize the global configuration
-        singleton."""
+        """Resolve search paths, refusing to create a second configuration."""
 
-        global _config
         if _config is not None:
             raise RuntimeError('Config has already been initialized.')
-        try:
-            self._normalize_path()
-        finally:
-            _config = self
+        self._normalize_path()
 
         return self
 
@@ -99,6 +94,14 @@ class Config(CIBaseModel):
                 'weather_data_dir',
                 Path(self.file_location(self.weather.weather_data_dir)).resolve(),
             )
+
+        # Only now, after the last validation step has succeeded, does this
+        # instance become the global configuration singleton: a load that
+        # fails (e.g. because a configured file does not exist) must leave
+        # the system unconfigured.
+        global _config
+        _config = self
+
         return self
 
     def file_location(self, f: Path | str) -> Path:
